@@ -6,7 +6,7 @@ TEXTS = {
  'C01': {
   'level': "Bounded model checking of the specification's exact-number kernel plus trace validation: every ordered unit pair (diagonal included) of every type with a reference unit - catalogue, amount type, astronomical crate, fixtures, dyadic model registry - in both back-ends is driven through convert/equiv_amount with structured and seeded random amounts; TLC evaluates, in exact arithmetic, unit' = target, |r*s2 - a*s1| <= Tol, same-unit identity (bit-identical) and equiv = stored. Exhaustive over units and unit pairs, sampled over amounts; not a proof.",
   'note': TB + "the tolerance model of spec/Amount.tla (K=16 ulp relative for f64; 4e-18 times the first-order sensitivities for Decimal); scales are the REPORTED ones (observed registry); where a catalogue unit's reported scale deviates from its published terminating-decimal definition, the *_published clauses (C01/C02/C03/C04/C13) judge the same events with the published scales as well, so a wrong catalogue literal is seen here too (and by C07.scale in any case).",
-  'technique': "TLA+ trace validation (TLC) of recorded convert/equiv_amount calls against exact-rational relation; exhaustive unit pairs",
+  'technique': "TLC model checking of the explicit TLA+ calculator machine (MC_Core) + replay of its behaviours on macro-generated types + TLA+ trace validation (TLC) of recorded convert/equiv_amount calls against exact-rational relation; exhaustive unit pairs",
  },
  'C07': {
   'level': "Exhaustive conformance of a finite space: every unit of every predefined quantity (112 main-crate units in f64 and Decimal, 27 astronomical units in f64) is dumped from the real code and TLC checks symbol, name, SI prefix and scale against the independently written definition table spec/catalogue.json, chaining each definition to the reference unit in exact rational arithmetic (terminating decimals: exact in Decimal / nearest double in f64; others: 1e-18 absolute in Decimal / 2^-52 relative in f64), plus pairwise SI-prefix consistency and reference scale one.",
@@ -16,7 +16,7 @@ TEXTS = {
  'C09': {
   'level': "Trace validation against the specification's transcription of the registry rules: iteration order = reference unit first + stable sort by scale (name order without reference unit), constants = variants, first-match look-ups by symbol and scale, exactly one reference unit, unit-as-quantity. Exhaustive over all units of all registered types (catalogue, astronomical, fixtures, model registry - the latter with tied scales); look-up keys are every declared symbol/scale plus near misses, neighbours, special values and seeded random keys.",
   'note': TB + "declared registries (spec/catalogue.json, spec/models/*.json) give the declaration order; expected first-match uses the observed iteration order, which is itself checked against the declared one.",
-  'technique': "TLA+ trace validation of iteration order / look-ups against ExpectedOrder and first-match operators",
+  'technique': "TLC model checking of the explicit TLA+ calculator machine (MC_Core) + replay of its behaviours on macro-generated types + TLA+ trace validation of iteration order / look-ups against ExpectedOrder and first-match operators",
  },
 }
 
@@ -24,42 +24,42 @@ TEXTS.update({
  'C02': {
   'level': "Trace validation of comparisons recorded in BOTH operand orders: for every ordered unit pair of every type with a reference unit, amount pairs built to be equal in exact arithmetic, their floating-point / 1e-18 neighbours, clearly separated pairs, mixed signs, zeros (plus NaN/inf for the consistency clauses) are compared with ==, !=, <, <=, >, >=, partial_cmp as (a,b) and (b,a); TLC decides the exact order of the magnitudes with big-number arithmetic and checks (i) agreement with it beyond one conversion's rounding error, (ii) same-unit = amount type's own comparison, (iii) the symmetry laws with no tolerance at all, (iv) internal consistency. Exhaustive over unit pairs, sampled over amounts.",
   'note': TB + "CmpSeparated in spec/Quantities.tla defines 'more than the rounding error of one conversion'.",
-  'technique': "TLA+ trace validation of both-order comparison events; symmetry clauses exact, order clause against exact magnitudes",
+  'technique': "TLC model checking of the explicit TLA+ calculator machine (MC_Core) + replay of its behaviours on macro-generated types + TLA+ trace validation of both-order comparison events; symmetry clauses exact, order clause against exact magnitudes",
  },
  'C03': {
   'level': "Trace validation: a+b, a-b, a/b for every ordered unit pair of every type with a reference unit; TLC checks result unit = left operand's unit, magnitude = exact sum/difference/ratio within the additive tolerance model (cancellation does not shrink the tolerance), and bit-identity with the amount type's own operator when units are equal. Exhaustive over unit pairs, sampled over amounts.",
   'note': TB + "tolerance model of DESIGN.md appendix A as written in AddWithin / RatioWithin.",
-  'technique': "TLA+ trace validation of +,-,/ events against exact-rational relations",
+  'technique': "TLC model checking of the explicit TLA+ calculator machine (MC_Core) + replay of its behaviours on macro-generated types + TLA+ trace validation of +,-,/ events against exact-rational relations",
  },
  'C04': {
   'level': "Trace validation of every derived operator instance that the declared derivations generate (catalogue 34, astronomical 4, fixtures, model registry) over all operand unit pairs: TLC checks that amount x unit-scale of the result equals the exact product / quotient of the operands' reference-unit magnitudes within tolerance, and that the owned, &a, &b, &a&b forms return identical values. Operator existence and result type are C06's business.",
   'note': TB + "DerivedTol in spec/Quantities.tla; the instance list is generated from spec/catalogue.json + spec/models/*.json.",
-  'technique': "TLA+ trace validation of derived mul/div events (all borrow forms) against exact magnitudes",
+  'technique': "TLC model checking of the explicit TLA+ calculator machine (MC_Core) + replay of its behaviours on macro-generated types + TLA+ trace validation of derived mul/div events (all borrow forms) against exact magnitudes",
  },
  'C05': {
   'level': "Trace validation of the unit choice: operands are chosen so that the exact result magnitude lands on, one representable step below and above every unit scale of the result type (plus zero / negative results) and _fit is also called directly on those magnitudes; TLC computes Natural(k) from the amount-type product/quotient of the two scales and BestFit over the eligible (SI-prefixed when the reference unit is) units - as a band when the magnitude is only known up to rounding, sharply when it is exact - and checks unit membership, reference-in => reference-out, and amount = amount type's own product/quotient in the natural-unit case.",
   'note': TB + "BestFitBand / Eligible / Natural in spec/Quantities.tla are the property-level definition, independent of the filter/first/last algorithm in the code.",
-  'technique': "TLA+ trace validation of result-unit selection against a declarative best-fit set; boundary magnitudes by construction",
+  'technique': "TLC model checking of the explicit TLA+ calculator machine (MC_Core) + replay of its behaviours on macro-generated types + TLA+ trace validation of result-unit selection against a declarative best-fit set; boundary magnitudes by construction",
  },
  'C08': {
   'level': "Trace validation, exhaustive over types x units: new / amount*unit / unit*amount store exactly the given amount (bit-identical, NaN/inf/-0 included) and unit; k*q, q*k, q/k keep the unit and equal the amount type's own product/quotient bit for bit; the amount type itself has one unit with empty symbol and scale one.",
   'note': TB + "the amount type's own * and / define the reference values (logged as 'ref').",
-  'technique': "TLA+ trace validation of constructor / scalar events, bit-identity clauses",
+  'technique': "TLC model checking of the explicit TLA+ calculator machine (MC_Core) + replay of its behaviours on macro-generated types + TLA+ trace validation of constructor / scalar events, bit-identity clauses",
  },
  'C10': {
   'level': "Trace validation over all ordered unit pairs of every type without reference unit (Temperature, fixtures, model types) and single-unit types: == iff same unit and equal amounts, different units unordered (all four relational operators false, partial_cmp None), + - / across units panic (recorded through catch_unwind), same-unit results bit-identical to the amount type's.",
   'note': TB + "panics are observed at the harness boundary.",
-  'technique': "TLA+ trace validation of comparison/arithmetic events on no-reference-unit types incl. panic outcomes",
+  'technique': "TLC model checking of the explicit TLA+ calculator machine (MC_Core) + replay of its behaviours on macro-generated types + TLA+ trace validation of comparison/arithmetic events on no-reference-unit types incl. panic outcomes",
  },
  'C13': {
   'level': "Trace validation of Rate: components, reciprocal (and reciprocal twice), rate*q, q*rate, q/rate over all term/per/operand units for ordered type pairs from a representative set; TLC checks result unit, value = ta*(q in per unit)/pm resp. pm*(q in term unit)/ta within tolerance, the same through the reciprocal, and there-and-back; mixed units of a no-reference type must panic.",
   'note': TB + "RateMulWithin / BackWithin in spec/Rates.tla.",
-  'technique': "TLA+ trace validation of rate events against exact relations",
+  'technique': "TLC model checking of the explicit TLA+ calculator machine (MC_Core) + replay of its behaviours on macro-generated types + TLA+ trace validation of rate events against exact relations",
  },
  'C14': {
   'level': "Trace validation: ConversionTable with N in 0..8 seeded random rows (duplicates, missing pairs): same unit => unchanged, else first matching row => amount bit-identical to amount*factor+offset computed by the amount type, else None; the predefined temperature table covers all 6 ordered pairs and matches the exact physical formulas (held as rationals in the specification) within tolerance, which implies mutual inverseness and consistent composition up to rounding.",
   'note': TB + "TempPhys in spec/Rates.tla (0 degC = 273.15 K, degF = degC*9/5+32).",
-  'technique': "TLA+ trace validation of table conversions: first-row semantics + exact physical temperature formulas",
+  'technique': "TLC model checking of the explicit TLA+ calculator machine (MC_Core) + replay of its behaviours on macro-generated types + TLA+ trace validation of table conversions: first-row semantics + exact physical temperature formulas",
  },
  'C15': {
   'level': "Trace validation on code-point sequences: TLC strips the padding, parses sign/digits/fraction/space/symbol, and checks layout, single sign, width counted in characters, alignment, symbol resolving to the stored unit, text reading back to exactly the stored amount (Decimal: equal; f64: inside the rounding interval given by the logged neighbour doubles), exactly p fractional digits correctly rounded, unit display = str formatting of the symbol, unit-less values = the amount type's own formatting, rate display. Every (plus, align, fill) shape incl. a non-ASCII fill is covered with rotating widths/precisions; amounts and remaining choices are sampled.",
